@@ -376,7 +376,7 @@ func c01Ads(c *vf.Ctx) {
 		return
 	}
 	defer env.close()
-	n := c.N(4000, 150000)
+	n := c.N(4000, 400000)
 	for i := 0; i < n; i++ {
 		if !c.Mine(sub, i) {
 			continue
@@ -605,7 +605,7 @@ func c01Entries(c *vf.Ctx) {
 		return
 	}
 	defer front.Close()
-	n := c.N(1500, 50000)
+	n := c.N(1500, 150000)
 	for i := 0; i < n; i++ {
 		if !c.Mine(sub, i) {
 			continue
